@@ -91,6 +91,8 @@ def obligations(tier):
         add("mv", variant, None, None, "2f", False, sym="B", A=[[2, 0, 3], [0, 0, 3]], bdims=[3])
     # a rotation of three ranks (tiled M, K outermost) and operands whose rank shapes are only estimated
     for B in ([[2, 0, 3]] if q else [[2, 0, 3], [3, 2, 2]]):
+        add("mv", "MK-ref", [2, 3], B)
+        add("mv", "MK-dense", [2, 3], B)
         add("mv", "KM1M0/1", [2, 3], B)
         add("mv", "KM1M0/2", [3, 3] if not q else [3, 2], B if not q else B[:2])
         for variant in ("MK", "MK1K0/2", "KM"):
